@@ -103,6 +103,7 @@ def run (sites : Sites) (doc : J) (ms : List Typedpy.Convert.Mapping) (extra : L
     match Typedpy.Convert.startVersion kvs with
     | .error _ => none
     | .ok v =>
+      if v < 1 then none else
       let sliced := Typedpy.Convert.pySliceFrom (v - 1) ms
       let vers : List J := (List.range (sliced.length + 1)).map fun (i : Nat) => Typedpy.Convert.Json.int (v + (i : Int) + 1)
       let tbl := internAll (scalarsOf doc ++ (ms.map constsOf).flatten ++ extra ++ vers)
